@@ -40,7 +40,7 @@ func tlv(tag byte, content []byte) []byte {
 
 // sanEntry is one GeneralName to encode.
 type sanEntry struct {
-	Kind    string // "dns", "ip", "id", "foreign" (other OID), "id_ia5" (receptor OID, IA5String value),
+	Kind string // "dns", "ip", "id", "foreign" (other OID), "id_ia5" (receptor OID, IA5String value),
 	//                "id_ber" (receptor name with a non-minimal length octet), "id_trunc" (truncated value)
 	Text string
 	IP   net.IP
